@@ -14,15 +14,21 @@ LEVEL = "proof"
 TRUSTED = [py2lean.trusted_note("entropy")]
 PROP_FILES = ["PersimVerif/Props/C16.lean", py2lean.prop_file("entropy")]
 RULE = ("barcodes generated from one PRNG: 1-4 diagrams of 0-12 bars, coordinates from lattice/half/dyadic/"
-        "decimal/uniform modes over scales 2^-20..2^20, infinite deaths with prob 0.25, all 8 flag combinations, "
-        "a malformed stream with non-positive bars; non-trivial = at least one diagram with >=2 finite bars; "
-        "distinct by digest of (flags, diagrams)")
+        "decimal/uniform modes over scales 2^-20..2^20, infinite deaths with prob 0.25, infinite births with prob 0.03 "
+        "(the code filters on the death column only), all 8 flag combinations, "
+        "a malformed stream with non-positive bars; a representation stream (uint8/int8/int32/int64/float32 arrays, "
+        "lists of nested lists / tuples, bars born after dying in unsigned dtypes) compared with the definition on the "
+        "same numbers; non-trivial = at least one diagram with >=2 finite bars; distinct by digest of (flags, diagrams)")
 ASSUMPTIONS = ["np.log/np.sum agree with the model's Float.log/left fold to 1e-12 (compared on every case)",
                "coordinates are finite or +inf (the only non-finite value the routine treats); -inf/NaN inputs are outside the model"]
 TOL = 1e-12
+# theorems that carry a clause of the statement (helpers, concrete instances and rfl restatements excluded)
+CORE_THEOREMS = ["H_nonneg", "H_le_log_n", "H_equal_lengths", "H_perm", "H_scale", "lengths_translate", "E1_translate",
+                 "E1_perm", "E1_scale", "H_norm_in_unit", "nonpositive_raises", "keep_without_value_raises",
+                 "inf_dropped", "ED_inf_dropped", "inf_birth_raises", "inf_substituted"]
 
 
-def gen_barcode(ctx, nmax=12, inf_p=0.25, bad_p=0.0):
+def gen_barcode(ctx, nmax=12, inf_p=0.25, bad_p=0.0, inf_birth_p=0.0):
     g, r = ctx.gen, ctx.rng
     mode = g.mode()
     n = r.randint(0, nmax)
@@ -31,6 +37,8 @@ def gen_barcode(ctx, nmax=12, inf_p=0.25, bad_p=0.0):
         b, d = g.bar(mode, allow_diag=False)
         if r.random() < inf_p:
             d = math.inf
+        if inf_birth_p and r.random() < inf_birth_p:
+            b = math.inf
         if r.random() < bad_p:
             b, d = (d, b) if r.random() < 0.5 and math.isfinite(d) else (b, b)
         bars.append([b, d])
@@ -73,6 +81,11 @@ def run(ctx):
         ([[[0.0, 1.0], [2.0, 2.0]]], False, None, False),             # zero-length bar
         ([[[0.0, 1.0], [0.0, math.inf]]], True, 0.0, False),          # substituted value gives length 0
         ([[[0.0, 1.0], [0.0, math.inf]]], True, 5.0, True),
+        ([[[math.inf, 1.0]]], False, None, False),                    # infinite birth, finite death: kept by the filter -> raises
+        ([[[0.0, 1.0], [math.inf, 2.0], [1.0, 4.0]]], False, None, True),
+        ([[[0.0, 1.0], [math.inf, math.inf]]], False, None, False),    # infinite death: dropped whatever the birth
+        ([[[0.0, 1.0], [math.inf, 9.0]]], True, 2.0, False),           # births are substituted too
+        ([[[0.0, 1.0], [math.inf, math.inf]]], True, 2.0, False),      # (2,2): length 0 -> raises
     ]
     n = ctx.n(600, 12000)
     for i in range(n + len(corpus)):
@@ -80,7 +93,8 @@ def run(ctx):
             dgms, keep, vinf, norm = corpus[i]
         else:
             bad = 0.15 if r.random() < 0.15 else 0.0
-            dgms = [gen_barcode(ctx, bad_p=bad) for _ in range(r.randint(1, 4))]
+            ib = 0.03 if r.random() < 0.3 else 0.0
+            dgms = [gen_barcode(ctx, bad_p=bad, inf_birth_p=ib) for _ in range(r.randint(1, 4))]
             keep = r.random() < 0.4
             vinf = None if r.random() < 0.25 else r.choice([0.5, 7.0, 100.0, float(r.randint(1, 30))])
             norm = r.random() < 0.5
@@ -97,6 +111,8 @@ def run(ctx):
         else:
             code = canon(run_code(dgms, keep, vinf, norm, single))
         nontriv = any(sum(1 for b in d if math.isfinite(b[1])) >= 2 for d in dgms)
+        if any(math.isinf(b[0]) for d in dgms for b in d):
+            ctx.count("with_infinite_birth")
         ctx.case({"op": "ent", "keep_inf": keep, "val_inf": vinf, "normalize": norm, "dgms": dgms}, nontriv, sample_every=97)
         if isinstance(code, str) or isinstance(ans, str):
             ctx.count("errors:" + str(code if isinstance(code, str) else "ok"))
@@ -115,6 +131,10 @@ def run(ctx):
             if len(ctx.violations) > 5:
                 return
     ctx.extra["anchored_statement_coverage"] = cov.summary()
+    ctx.extra["core_theorems"] = CORE_THEOREMS
+    representations(ctx)
+    if len(ctx.violations) > 5:
+        return
     laws(ctx)
 
 
@@ -146,49 +166,114 @@ def spec_disagrees(spec, code):
     return len(spec) != len(code) or not all(close(a, b, 1e-9) for a, b in zip(spec, code))
 
 
+INT_DTYPES = ["uint8", "int8", "int32", "int64", "uint16", "float32"]
+
+
+def gen_int_barcode(r, dtype, bad):
+    """small integer bars that fit the dtype; `bad` puts in a bar born after dying (or of length 0)"""
+    lo = 0 if dtype.startswith("uint") or dtype == "float32" else -60
+    n = r.randint(1, 8)
+    bars = []
+    for _ in range(n):
+        b = r.randint(lo, 100)
+        bars.append([b, b + r.randint(1, 27)])
+    if bad:
+        b = r.randint(lo + 30, 100)
+        bars.insert(r.randint(0, len(bars)), [b, b - r.choice([0, 1, 2, 30])])
+    return bars
+
+
+def rep_eval(bars, rep, norm):
+    """the real routine on one representation of `bars` and the definition on the same numbers"""
+    pe = common.pm("persistent_entropy").persistent_entropy
+    if rep == "lists":
+        arg = [[list(map(int, b)) for b in bars]]                 # a list of diagrams, the diagram a nested list
+    elif rep == "tuples":
+        arg = [tuple((int(b[0]), int(b[1])) for b in bars)]
+    elif rep == "extra_column":
+        arg = np.array([[b[0], b[1], 7] for b in bars], dtype="int64")
+    else:
+        arg = np.array(bars, dtype=rep)
+    with np.errstate(all="ignore"):
+        code = canon(call(pe, arg, normalize=norm))
+    spec = spec_value([[[float(b[0]), float(b[1])] for b in bars]], False, None, norm)
+    return code, spec
+
+
+def representations(ctx):
+    """[T] the value must not depend on how the same numbers are stored (fix 53d45dc: `np.asarray(dgm, dtype=float)`):
+    integer arrays of every width, unsigned ones with a bar born after dying (the subtraction must not wrap round),
+    nested lists, tuples, an array with an extra column.  Reference: the definition on the same numbers."""
+    r = ctx.rng
+    for k in range(ctx.n(240, 3000)):
+        rep = (INT_DTYPES + ["lists", "tuples", "extra_column"])[k % (len(INT_DTYPES) + 3)]
+        bad = r.random() < 0.35
+        norm = r.random() < 0.3
+        bars = gen_int_barcode(r, rep if rep in INT_DTYPES else "int64", bad)
+        code, spec = rep_eval(bars, rep, norm)
+        ctx.case({"op": "representation", "rep": rep, "bars": bars, "normalize": norm}, len(bars) >= 2, sample_every=53)
+        ctx.count("representation:" + rep + (":born_after_dying" if bad else ""))
+        ok = not spec_disagrees(spec, code)
+        ctx.test("representation", ok)
+        if not ok:
+            ctx.violation("persistent_entropy of the %s representation differs from the definition on the same numbers: code=%r definition=%r"
+                          % (rep, code, spec), {"representation": rep, "bars": bars, "normalize": norm})
+            if len(ctx.violations) > 5:
+                return
+
+
+LAWS = ["bounds", "perm", "translate", "scale", "equal_lengths", "normalised_unit", "inf_handling", "list_is_map",
+        "nonpositive_raises"]
+
+
+def eval_laws(bars, t, lam, perm_seed, drop):
+    """the laws of the statement on the real code for one recorded barcode; returns {law: bool}"""
+    pe = common.pm("persistent_entropy").persistent_entropy
+    a = arr(bars)
+    n = len(bars)
+    out = {}
+    H = float(pe(a)[0])
+    out["bounds"] = -1e-12 <= H <= math.log(n) + 1e-12
+    perm = a[np.random.RandomState(perm_seed).permutation(n)]
+    span = float(np.max(np.abs(a))) + 1.0
+    out["perm"] = close(float(pe(perm)[0]), H, 1e-10)
+    # translation adds t to both ends: lengths change by rounding only (relative to the coordinates' size)
+    out["translate"] = close(float(pe(a + t)[0]), H, 1e-7 * max(1.0, (abs(t) + span) / float(np.min(a[:, 1] - a[:, 0]))))
+    out["scale"] = close(float(pe(a * lam)[0]), H, 1e-10)
+    eq = np.array([[float(i), float(i) + 2.5] for i in range(n)])
+    out["equal_lengths"] = close(float(pe(eq)[0]), math.log(n), 1e-12)
+    if n >= 2:
+        Hn = float(pe(a, normalize=True)[0])
+        out["normalised_unit"] = -1e-12 <= Hn <= 1 + 1e-12
+    k = perm_seed % (n + 1)                    # the infinite bar goes anywhere in the diagram, not only to the end
+    withinf = np.vstack([a[:k], [[0.0, np.inf]], a[k:]])
+    subst = np.vstack([a[:k], [[0.0, 9.0]], a[k:]])
+    out["inf_handling"] = close(float(pe(withinf)[0]), H, 0.0) and \
+        close(float(pe(withinf, keep_inf=True, val_inf=9.0)[0]), float(pe(subst)[0]), 0.0)
+    both = pe([a, eq])
+    out["list_is_map"] = close(float(both[0]), H, 0.0) and close(float(both[1]), float(pe(eq)[0]), 0.0) and len(both) == 2
+    bad = np.vstack([a[:k], [[2.0, 2.0 - drop]], a[k:]])
+    out["nonpositive_raises"] = call(pe, bad)[0] == "err"
+    return out
+
+
 def laws(ctx):
     """[T] the laws of the statement on the real code (float rounding is not covered by the theorems)"""
     r = ctx.rng
-    pe = common.pm("persistent_entropy").persistent_entropy
     for _ in range(ctx.n(300, 5000)):
         bars = [b for b in gen_barcode(ctx, nmax=14, inf_p=0.0) if b[1] > b[0]]
         if len(bars) < 1:
             continue
-        a = arr(bars)
-        n = len(bars)
-        H = float(pe(a)[0])
-        ok = -1e-12 <= H <= math.log(n) + 1e-12
-        ctx.test("bounds", ok)
-        perm = a[np.random.RandomState(r.randint(0, 2**31 - 1)).permutation(n)]
+        perm_seed = r.randint(0, 2**31 - 1)
         t = r.choice([-3.0, 0.5, 1000.0])
         lam = r.choice([0.25, 3.0, 1024.0])
-        span = float(np.max(np.abs(a))) + 1.0
-        okp = close(float(pe(perm)[0]), H, 1e-10)
-        # translation adds t to both ends: lengths change by rounding only (relative to the coordinates' size)
-        okt = close(float(pe(a + t)[0]), H, 1e-7 * max(1.0, (abs(t) + span) / float(np.min(a[:, 1] - a[:, 0]))))
-        oks = close(float(pe(a * lam)[0]), H, 1e-10)
-        ctx.test("perm", okp); ctx.test("translate", okt); ctx.test("scale", oks)
-        eq = np.array([[float(i), float(i) + 2.5] for i in range(n)])
-        oke = close(float(pe(eq)[0]), math.log(n), 1e-12)
-        ctx.test("equal_lengths", oke)
-        okn = True
-        if n >= 2:
-            Hn = float(pe(a, normalize=True)[0])
-            okn = -1e-12 <= Hn <= 1 + 1e-12
-            ctx.test("normalised_unit", okn)
-        withinf = np.vstack([a, [[0.0, np.inf]]])
-        oki = close(float(pe(withinf)[0]), H, 0.0) and \
-            close(float(pe(withinf, keep_inf=True, val_inf=9.0)[0]), float(pe(np.vstack([a, [[0.0, 9.0]]]))[0]), 0.0)
-        ctx.test("inf_handling", oki)
-        both = pe([a, eq])
-        okl = close(float(both[0]), H, 0.0) and close(float(both[1]), float(pe(eq)[0]), 0.0) and len(both) == 2
-        ctx.test("list_is_map", okl)
-        bad = np.vstack([a, [[2.0, 2.0 - r.choice([0.0, 1.0])]]])
-        okr = call(pe, bad)[0] == "err"
-        ctx.test("nonpositive_raises", okr)
-        if not (ok and okp and okt and oks and oke and okn and oki and okl and okr):
-            ctx.violation("entropy law fails on the real code (bounds=%s perm=%s translate=%s scale=%s equal=%s norm=%s inf=%s list=%s raises=%s)"
-                          % (ok, okp, okt, oks, oke, okn, oki, okl, okr), {"bars": bars, "t": t, "lam": lam}, law=True)
+        drop = r.choice([0.0, 1.0])
+        res = eval_laws(bars, t, lam, perm_seed, drop)
+        for k, v in res.items():
+            ctx.test(k, v)
+        if not all(res.values()):
+            ctx.violation("entropy law fails on the real code (%s)" % " ".join("%s=%s" % kv for kv in res.items()),
+                          {"bars": bars, "t": t, "lam": lam, "perm_seed": perm_seed, "drop": drop}, law=True)
             if len(ctx.violations) > 5:
                 return
 
@@ -200,18 +285,31 @@ def replay(ctx, rep):
         spec = spec_value(c["dgms"], c["keep_inf"], c["val_inf"], c["normalize"])
         print("code:", code, "\ndefinition:", spec)
         return not spec_disagrees(spec, code)
-    before = len(ctx.violations)
-    print("law replay: re-run `./check.py C16` with VERIF_SEED=%s" % rep.get("seed"))
-    return before == len(ctx.violations)
+    if "representation" in c:
+        code, spec = rep_eval(c["bars"], c["representation"], c["normalize"])
+        print("representation:", c["representation"], "bars:", c["bars"], "\ncode:", code, "\ndefinition:", spec)
+        return not spec_disagrees(spec, code)
+    if "bars" in c and "perm_seed" in c:
+        res = eval_laws(c["bars"], c["t"], c["lam"], c["perm_seed"], c["drop"])
+        print("laws on the recorded barcode:", res)
+        return all(res.values())
+    raise common.HarnessError("C16 replay: unknown case shape %r" % sorted(c))
 
 MANIFEST = {
-    "text": "Proof: 18 Lean theorems about the model of persistent_entropy at the reals (0 <= H <= log n via Gibbs' inequality, "
-            "= log n for equal lengths, invariance under reordering/translation/rescaling, normalised variant in [0,1] for n>=2, "
-            "list -> vector, inf dropped/substituted, non-positive bar raises), for barcodes of every size. The model is tied to the "
-            "code on every run by executing the same definitions at Float against the real function on generated barcodes and all flag "
-            "combinations (1e-12), and the laws are also evaluated on the real code as tests.",
+    "text": "Proof: 27 Lean theorems (16 of them core: each carries a clause of the statement; the rest are helpers and rfl restatements "
+            "such as list_is_map_*) about the model of persistent_entropy at the reals: 0 <= H <= log n via Gibbs' inequality, "
+            "= log n for equal lengths, invariance under reordering/translation/rescaling both for the Shannon sum and for what the "
+            "routine returns for a diagram (E1_perm, E1_scale for c > 0, E1_translate: value or error), normalised variant in [0,1] for "
+            "n>=2, list -> vector, a bar with infinite death anywhere in the diagram is dropped / every infinite entry is replaced by the "
+            "supplied value, a non-positive bar raises - including a bar with infinite birth and finite death, which the death-only "
+            "filter keeps (inf_birth_raises) - for barcodes of every size. The model is tied to the code on every run by executing the "
+            "same definitions at Float against the real function on generated barcodes (infinite deaths and births) and all flag "
+            "combinations (1e-12); a representation stream (uint8/int8/int32/int64/uint16/float32 arrays, nested lists, tuples, an "
+            "extra column, unsigned bars born after dying) compares the real function with the definition on the same numbers, and "
+            "the laws are also evaluated on the real code as tests.",
     "note": "Trusted: Lean kernel + Mathlib, axioms propext/Classical.choice/Quot.sound; the correspondence harness; np.log/np.sum as "
-            "Real.log/sum up to rounding. Theorems are exact-arithmetic; float rounding is covered only by the [T] law stream.",
+            "Real.log/sum up to rounding. Theorems are exact-arithmetic; float rounding and the conversion of the input container "
+            "to float64 are covered only by the [T] law and representation streams. -inf/NaN coordinates are outside the model.",
     "technique": "Lean 4 theorems over a hand-written model + differential correspondence with the real code",
 }
 MANIFEST["note"] += " " + py2lean.manifest_note("entropy")
